@@ -246,13 +246,20 @@ TenantExt(E, tl, id) == [ n \in DOMAIN E \cup {tl} |-> IF n = tl THEN id ELSE E[
 SeriesHasSampleInRange(W, s, mint, maxt) ==
     \E k \in s.slots : (mint <= ChunkMin(W, k) /\ ChunkMin(W, k) <= maxt) \/ (mint <= ChunkMax(W, k) /\ ChunkMax(W, k) <= maxt)
 
+(* The Prometheus HTTP API (/series, /labels and /label/<n>/values with match[]) refuses a selector *)
+(* set in which every matcher also matches the empty string ("match[] must contain at least one    *)
+(* non-empty matcher"); remote read has no such rule.                                               *)
+MatchesEmptyAll(ms1) == ms1 # {} /\ \A m \in ms1 : Matches(m, "")
+PromRefuses(ms, E) == MatchesEmptyAll(FilterExt(ms, E))
+
 PromSelect(W, src, ms1, req, opt) ==
-    IF opt.samples /\ ~opt.skip
+    IF ~opt.skip     \* remote read (streamed or sampled): Prometheus trims chunks to the range
       THEN { s \in MatchStored(src, ms1) : SeriesHasSampleInRange(W, s, req.mint, req.maxt) }
-      ELSE SelectStored(W, src, ms1, req.mint, req.maxt)
+      ELSE SelectStored(W, src, ms1, req.mint, req.maxt)     \* /series: chunk overlap
 PromSeries(W, src, req, opt) ==
     IF Contradicts(req.ms, src.ext) THEN [kind |-> "ok", out |-> {}]
     ELSE IF FilterExt(req.ms, src.ext) = {} THEN [kind |-> "invalid", out |-> {}]
+    ELSE IF opt.skip /\ PromRefuses(req.ms, src.ext) THEN [kind |-> "invalid", out |-> {}]   \* /series says 400
     ELSE [kind |-> "ok",
           out |-> { AlgoPresent(s.l, src.ext, req.rl) : s \in PromSelect(W, src, FilterExt(req.ms, src.ext), req, opt) }]
 PromNames(W, src, req, opt) ==
